@@ -17,7 +17,7 @@ def explain(fn, args, kwargs):
     idx = int(fn.split('__')[1])
     kinds = TUPLES[idx]
     ne = len(K.edge_slots(kinds))
-    return K.order_explain(kinds, list(args[:ne]), list(args[ne:]))
+    return K.order_explain(kinds, list(args[:ne]), list(args[ne:]), int(fn.split('__')[2]))
 
 '''
 
@@ -69,11 +69,15 @@ def run(tier):
         import math
         pres = ['0 <= %s < %d' % (s, math.factorial(g)) for s, g in zip(snames, sels)]
         sig = ', '.join(['%s: bool' % e for e in enames] + ['%s: int' % s for s in snames])
-        body.append('def ord__%d(%s) -> bool:\n    """\n%s    post: _\n    """\n    return K.order_independent(TUPLES[%d], [%s], [%s])\n\n'
-                    % (idx, sig, ''.join('    pre: %s\n' % p for p in pres), idx, ', '.join(enames), ', '.join(snames)))
-        conds.append(Cond(path, 'ord__%d' % idx, 'order/%s' % '-'.join(kinds),
-                          dict(check='definition order', kinds=list(kinds), symbolic='%d dependency bits, %d in-group permutations' % (len(slots), len(sels))),
-                          sample_args=[True] * len(slots) + [0] * len(sels)))
+        has_expr = any(k in ('const', 'enum') for k in kinds)
+        for style in ((0, 1, 2, 3) if has_expr else (0,)):
+            fn = 'ord__%d__%d' % (idx, style)
+            body.append('def %s(%s) -> bool:\n    """\n%s    post: _\n    """\n    return K.order_independent(TUPLES[%d], [%s], [%s], %d)\n\n'
+                        % (fn, sig, ''.join('    pre: %s\n' % p for p in pres), idx, ', '.join(enames), ', '.join(snames), style))
+            conds.append(Cond(path, fn, 'order/%s/spelling%d' % ('-'.join(kinds), style),
+                              dict(check='definition order', kinds=list(kinds), spelling=K.join_terms(['1', 'A', 'B_M'], style),
+                                   symbolic='%d dependency bits, %d in-group permutations' % (len(slots), len(sels))),
+                              sample_args=[True] * len(slots) + [0] * len(sels)))
     with open(path, 'w') as f:
         f.write(''.join(body))
     conds = C.only(conds)
